@@ -54,6 +54,19 @@ class MigWorld(World):
         self._release()
         p = self.legacy_path(self.cur_profile)
         seams.assert_in_scratch(p)
+        if os.path.exists(p):
+            # The legacy file is what an OLDER release left behind: a rollback-journal database.  Normalise the
+            # journal mode (a no-op on the current tree) so that a new release which opens legacy files in another
+            # mode is seen to rewrite them.
+            import sqlite3 as _sq
+
+            cb, seams.STMT.callback = seams.STMT.callback, None
+            try:
+                c = _sq.connect(p)
+                c.execute("PRAGMA journal_mode=DELETE").fetchall()
+                c.close()
+            finally:
+                seams.STMT.callback = cb
         if not os.path.exists(p):
             raise Violation("bucket_missing", "the legacy store of profile testing=%s did not use its documented default file %s: whatever it holds cannot be found by the migration" % (self.cur_profile, os.path.basename(p)), {"op": "first_start"})
         self.legacy_hash[self.cur_profile] = _sha(p)
@@ -150,7 +163,7 @@ def _sha(p):
 class C14(Check):
     prop = "C14"
     level = "exploration"
-    quick_runs = 4000
+    quick_runs = 3000
     thorough_runs = 150000
     chunk = 25
     rule = (
@@ -160,7 +173,7 @@ class C14(Check):
         "under the same bucket ids; then first start and a restart of the default SqliteStorage in the same fake home; "
         "non-trivial = legacy store held >=1 bucket with >=1 event; distinct = (profile, op-kind sequence, events per bucket)"
     )
-    expected_probes = ["legacy_events_migrated", "legacy_bucket_with_data", "legacy_bucket_name_omitted", "distractor_profile_present", "legacy_exit_dirty", "id_holes", "profile_testing", "profile_normal", "unicode_bucket_id", "restart_new_checked", "legacy_bucket_over_1000_events", "legacy_negative_duration", "new_store_exit_without_shutdown", "bucket_ids_differ_in_case", "both_profiles_migrated_in_one_process"]
+    expected_probes = ["legacy_events_migrated", "legacy_bucket_with_data", "legacy_bucket_name_omitted", "distractor_profile_present", "legacy_exit_dirty", "id_holes", "profile_testing", "profile_normal", "unicode_bucket_id", "restart_new_checked", "legacy_bucket_over_1000_events", "legacy_negative_duration", "new_store_exit_without_shutdown", "bucket_ids_differ_in_case", "both_profiles_migrated_in_one_process", "legacy_unpaired_surrogate"]
     assumptions = ["the data directory is found through XDG_DATA_HOME (platformdirs); the harness asserts every database path lies inside the run's scratch home"]
     real_components = ["PeeweeStorage (legacy store at default path)", "SqliteStorage (new store at default path)", "aw_datastore.migration", "aw_core.dirs / platformdirs", "SQLite engine", "peewee ORM"]
     stub_components = ["home directory (XDG_* in scratch)", "loggers", "the legacy client (generated history)"]
@@ -181,7 +194,8 @@ class C14(Check):
             # the other profile's legacy store: same ids, different content
             dr = rs["distractor"]
             steps.append({"op": "switch_profile", "testing": not profile})
-            steps += actors.creates(dr, buckets[: dr.randrange(1, nb + 1)], cfg)
+            # created in the opposite order, so that the same bucket id sits at a different row in the two stores
+            steps += actors.creates(dr, list(reversed(buckets))[: dr.randrange(1, nb + 1)], cfg)
             for b in buckets:
                 if dr.random() < 0.7:
                     steps.append({"op": "insertN", "b": b, "evs": [{"ev": gen.event(dr, lat)} for _ in range(dr.randrange(1, 5))]})
@@ -206,6 +220,11 @@ class C14(Check):
             # legacy data is whatever it is: events with a negative duration are legal Event values
             b = nr.choice(buckets)
             steps.append({"op": "insertN", "b": b, "evs": [{"ev": {"ts": gen.lat_ts(nr, lat), "off": 0, "dur": -nr.choice([1, 1000, 1_500_000, 60_000_000]), "data": {"neg": True}}} for _ in range(nr.randrange(1, 4))]})
+        sr2 = rs["surrogate"]
+        if sr2.random() < 0.12:
+            # a window title cut in the middle of an emoji: an unpaired surrogate is a legal str and legal JSON
+            b = sr2.choice(buckets)
+            steps.append({"op": "insert1", "b": b, "ev": {"ts": gen.lat_ts(sr2, lat), "off": 0, "dur": 1_000_000, "data": {"title": "cut here \ud83d", "app": "x"}}})
         steps.append({"op": "first_start", "dirty": r.random() < 0.3})
         # the library has no shutdown call: a process that migrated, served reads and exited without ceremony
         # is the ordinary lifecycle, so half of the restarts abandon the connection instead of flushing it
@@ -250,6 +269,8 @@ class C14(Check):
                 pr["legacy_bucket_over_1000_events"] += 1
             if any(t[1] < 0 for t in we):
                 pr["legacy_negative_duration"] += 1
+            if any("\\ud83d" in repr(t[2]) for t in we):
+                pr["legacy_unpaired_surrogate"] += 1
             ids = sorted(t[0] for t in want[b]["events"])
             if ids and ids[-1] - ids[0] + 1 != len(ids):
                 pr["id_holes"] += 1
